@@ -879,3 +879,125 @@ func ruleC09Lookahead(p *Program, r *Run) {
 	}
 	r.Floor("C09/lookahead", 3)
 }
+
+// ---- C09/escapes: the escape decoding table of string literals; C09/unquote: backtick un-doubling.
+func ruleC09Escapes(p *Program, r *Run) {
+	pkg := p.Parser
+	info := pkg.TypesInfo
+	fd := p.MustFunc(pkg, "scanner.string")
+	fn := FuncName(pkg, fd)
+	r.Saw(fn)
+	// the switch on the rune read directly after a backslash: the innermost switch inside `case '\\':`
+	var escSw *ast.SwitchStmt
+	ast.Inspect(fd.Body, func(n ast.Node) bool {
+		cc, ok := n.(*ast.CaseClause)
+		if !ok {
+			return true
+		}
+		isBackslash := false
+		for _, e := range cc.List {
+			if v, ok := constInt(info, e); ok && v == '\\' {
+				isBackslash = true
+			}
+		}
+		if !isBackslash {
+			return true
+		}
+		ast.Inspect(cc, func(m ast.Node) bool {
+			if sw, ok := m.(*ast.SwitchStmt); ok && sw != nil && escSw == nil && sw.Tag != nil {
+				escSw = sw
+			}
+			return true
+		})
+		return false
+	})
+	if escSw == nil {
+		r.Fail("C09/escapes", fn+" escape switch", p.Pos(fd.Pos()), "no switch on the character after a backslash found: escape sequences are not decoded by a recognisable table")
+		return
+	}
+	want := map[string]string{"n": "\n", "t": "\t"}
+	got := map[string]string{}
+	dfltSelf := false
+	nlErr := false
+	for _, c := range escSw.Body.List {
+		cc := c.(*ast.CaseClause)
+		var wrote *ast.CallExpr
+		returns := false
+		for _, s := range cc.Body {
+			ast.Inspect(s, func(m ast.Node) bool {
+				if call, ok := m.(*ast.CallExpr); ok {
+					if sel, ok := call.Fun.(*ast.SelectorExpr); ok && strings.HasPrefix(sel.Sel.Name, "Write") {
+						wrote = call
+					}
+				}
+				if _, ok := m.(*ast.ReturnStmt); ok {
+					returns = true
+				}
+				return true
+			})
+		}
+		if cc.List == nil {
+			if wrote != nil && len(wrote.Args) == 1 && sameExpr(info, wrote.Args[0], escSw.Tag) {
+				dfltSelf = true
+			}
+			continue
+		}
+		for _, e := range cc.List {
+			v, ok := constInt(info, e)
+			if !ok {
+				continue
+			}
+			if v == '\n' && returns {
+				nlErr = true
+				continue
+			}
+			if wrote != nil && len(wrote.Args) == 1 {
+				if w, ok := constInt(info, wrote.Args[0]); ok {
+					got[string(rune(v))] = string(rune(w))
+				} else {
+					got[string(rune(v))] = "?" + exprStr(wrote.Args[0])
+				}
+			}
+		}
+	}
+	for _, k := range []string{"n", "t"} {
+		r.Check(got[k] == want[k], "C09/escapes", fmt.Sprintf("%s escape \\%s", fn, k), p.Pos(escSw.Pos()), fmt.Sprintf("decodes to %q", want[k]), fmt.Sprintf("the escape \\%s decodes to %q, documented %q", k, got[k], want[k]))
+	}
+	for k, v := range got {
+		if _, ok := want[k]; !ok {
+			r.Fail("C09/escapes", fmt.Sprintf("%s escape \\%s", fn, k), p.Pos(escSw.Pos()), fmt.Sprintf("undocumented escape \\%s -> %q", k, v))
+		}
+	}
+	r.Check(dfltSelf, "C09/escapes", fn+" any other escaped character", p.Pos(escSw.Pos()), "stands for itself (so \\\" \\' \\\\ work)", "an escaped character that is not n or t does not stand for itself")
+	r.Check(nlErr, "C09/escapes", fn+" backslash before a newline", p.Pos(escSw.Pos()), "is an unterminated string (strings are one-line)", "a backslash directly before a newline does not end the token with an error")
+	r.Floor("C09/escapes", 4)
+
+	// quotedIdent: Value = ReplaceAll(text between the backticks, "``", "`")
+	qd := p.MustFunc(pkg, "scanner.quotedIdent")
+	r.Saw(FuncName(pkg, qd))
+	okUn := false
+	ast.Inspect(qd.Body, func(n ast.Node) bool {
+		cl, ok := n.(*ast.CompositeLit)
+		if !ok || TypeStr(info.TypeOf(cl)) != "parser.Token" {
+			return true
+		}
+		if k := litField(info, cl, "Kind"); k == nil || constName(info, k) != "TokenQuotedIdentifier" {
+			return true
+		}
+		v := litField(info, cl, "Value")
+		call, isCall := ast.Unparen(orIdent(v)).(*ast.CallExpr)
+		if !isCall || len(call.Args) != 3 {
+			return true
+		}
+		if f := Callee(info, call); f == nil || f.FullName() != "strings.ReplaceAll" {
+			return true
+		}
+		from, _ := constString(info, call.Args[1])
+		to, _ := constString(info, call.Args[2])
+		_, isSlice := ast.Unparen(call.Args[0]).(*ast.SliceExpr)
+		okUn = from == "``" && to == "`" && isSlice
+		return true
+	})
+	r.Check(okUn, "C09/unquote", FuncName(pkg, qd)+" value", p.Pos(qd.Pos()), "the text between the backticks with every doubled backtick reduced to one", "the value of a backtick-quoted identifier is not the enclosed text with `` reduced to `")
+	r.Floor("C09/unquote", 1)
+}
